@@ -26,6 +26,7 @@ KIND = {"acquire": 1, "tryacquire": 2, "release": 3, "enter": 4, "exit": 5, "wai
         "notify_all": 9, "sleep": 10, "f_begin": 11, "f_end": 12, "read_tc": 13}
 KIND_NAME = {v: k for k, v in KIND.items()}
 STEP_LIMIT = 6000
+CURRENT_LIMIT = [STEP_LIMIT]  # lowered after repeated step-limit runs (a livelocking mutant must not cost minutes)
 
 
 class PrimFailure(Exception):
@@ -410,8 +411,9 @@ def thread_locals(run: Run):
 
 
 # ----------------------------------------------------------------------------- policies
-def execute(cfg, policy, limit=STEP_LIMIT, faults=True) -> Run:
+def execute(cfg, policy, limit=None, faults=True) -> Run:
     """Run the implementation; `policy(run, transitions, stepno)` returns (tid, choice), or None to stop."""
+    limit = CURRENT_LIMIT[0] if limit is None else limit
     run = Run(cfg)
     ctl = run.ctl
     try:
@@ -607,7 +609,7 @@ def oracle(run: Run, faults_injected=None):
         v.append((prop, "hang-after-failure" if dirty else "deadlock",
                   f"no thread can take a step but calls are unfinished: pending {run.pending_at_end}, lock owners {run.final_fields['owners']}, wait sets {run.final_fields['waiters']}"))
     if run.status == "limit":
-        v.append(("C09" if failed else "C08", "step-limit", f"run did not finish within {STEP_LIMIT} steps under a fair random schedule"))
+        v.append(("C09" if failed else "C08", "step-limit", f"run did not finish within {len(run.schedule)} steps under a fair random schedule"))
     # ---- C06: every pub handed to the primitive at most once (exactly once at completion)
     seen = [t for inv in fake.invocations for t in inv]
     submitted = [t for th in calls for c in th for t in c]
@@ -1017,6 +1019,10 @@ class Explorer:
                  sample=dict(origin=origin, cfg=cfg, steps=len(run.schedule), status=run.status, invocations=run.fake.invocations, failed=[k for k, s in enumerate(run.fake.status) if s is False]) if len(ctx.samples) < 4 and nontriv else None)
         ctx.tally(f"{origin}:{run.level}:{shape(cfg)}")
         ctx.tally("status:" + run.status)
+        if run.status == "limit":
+            self.limits = getattr(self, "limits", 0) + 1
+            if self.limits >= 3:
+                CURRENT_LIMIT[0] = 1500
         nf = sum(1 for s in run.fake.status if s is False)
         if nf:
             ctx.tally(f"failed-invocations:{min(nf, 3)}{'+' if nf > 3 else ''}")
@@ -1080,6 +1086,7 @@ def ensure_model():
 
 def run_property(ctx, pid):
     ensure_model()
+    CURRENT_LIMIT[0] = STEP_LIMIT
     ex = Explorer(ctx, pid)
     rng = ctx.rng
     faults = ex.faults
